@@ -243,7 +243,32 @@ def h_case_insensitive(eng, names):
                 # every case-insensitive candidate is a case variant of a defined spelling
                 stem = variant
                 eng.prove(any(sp.lower() == stem.lower()[len(pp) :].rstrip("s") or sp.lower() == stem.lower()[len(pp) :] for sp, c in d.spellings.items() if c == u for pp in ([""] + [k for k, (pn, _v, _s) in d.prefixes.items() if pn == p])), f"case-insensitive-candidate-valid:{variant}:{p}{u}")
-            eng.prove(set(cands_cs) <= set(cands_ci) or True, f"case-sensitive-subset:{variant}")
+            # "only when requested": a case-insensitive lookup earlier must not change what the
+            # ordinary (case-sensitive) lookup of the same string answers afterwards
+            def ask(text, **kw):
+                try:
+                    return str(ureg.parse_units(text, **kw))
+                except UndefinedUnitError:
+                    return None
+                except Exception as e:  # noqa: BLE001
+                    return type(e).__name__
+
+            for text in (variant, f"{variant}/second", f"{variant}*{variant}"):
+                before = ask(text)
+                ci = ask(text, case_sensitive=False)
+                after = ask(text)
+                eng.prove(before == after, f"case-insensitive-lookup-leaves-no-trace:{text}")
+                eng.prove(ask(text, case_sensitive=True) == before, f"explicit-case-sensitive-same:{text}")
+                if cands_ci and not cands_cs:
+                    eng.prove(before is None and ci is not None, f"case-variant-only-on-request:{text}")
+                try:
+                    ureg.Quantity(1, text)
+                    okq = True
+                except UndefinedUnitError:
+                    okq = False
+                except Exception:  # noqa: BLE001
+                    okq = None
+                eng.prove(okq is None or okq == (before is not None), f"quantity-after-case-insensitive-lookup:{text}")
 
 
 MIN_DISCHARGED = {"H08.a": 5000, "H08.b": 300, "H08.d": 3000}
